@@ -2,5 +2,6 @@
 #include <stdio.h>
 #include <errno.h>
 #include <string.h>
-int main(void) { struct xcm_socket *s = xcm_server("ux:k2b-replay"); struct xcm_socket *c = xcm_connect("ux:k2b-replay", XCM_NONBLOCK);
-  printf("server %p conn %p errno %s\nOK: reported, not aborted\n", (void *)s, (void *)c, strerror(errno)); return 0; }
+int main(void) { struct xcm_socket *s = xcm_server("ux:k2b-replay"); xcm_set_blocking(s, false);
+  int rc = xcm_await(s, XCM_SO_ACCEPTABLE);
+  printf("xcm_await returned %d errno %s\nOK: reported, not aborted\n", rc, strerror(errno)); return 0; }
